@@ -1148,3 +1148,133 @@ def r4_14(rep):
                       "the const-ness of the decayed pointer is read from the element type as spelled only: a typedef of a const type "
                       "(`typedef const int cint; void g(cint a[4]);`) gives `*mut`", b.loc(c))
     rep.need(n >= 1, "to_ptr(..) in an array arm of the argument conversion")
+
+
+@RULES.rule("R4.15", "scalar parameters, returns and globals are spelled through the primitive-type tables (shared with C02 R2.1)", floor=200)
+def r4_15(rep):
+    """Every scalar in a signature is spelled by `int_kind_rust_type` / `float_kind_rust_type` / the size->integer tables.  A row of
+    the wrong width passes the wrong register half or the wrong SSE width: `(8, false) => c_float` for an 8-byte `long double`
+    under `--no-convert-floats` makes `scale(1.25, 4)` return 0.0 (seeded change).  Same rule instance as R2.1."""
+    import c02
+
+    class _Widths:
+        """R2.1 minus its signedness section: a sign recorded wrongly changes how a VALUE is read (C02 / C05), not whether the
+        same bits arrive in the callee."""
+        def __init__(self, rep):
+            self._rep = rep
+
+        def __getattr__(self, name):
+            return getattr(self._rep, name)
+
+        def check(self, cond, key, detail="", loc=""):
+            return bool(cond) if key.startswith("is_signed:") else self._rep.check(cond, key, detail, loc)
+
+        def bad(self, key, detail, loc=""):
+            if not key.startswith("is_signed:"):
+                self._rep.bad(key, detail, loc)
+
+        def ok(self, key, detail="", loc=""):
+            if not key.startswith("is_signed:"):
+                self._rep.ok(key, detail, loc)
+
+    c02.r2_1(_Widths(rep))
+
+
+@RULES.rule("R4.16", "a pointer whose spelled pointee lost the `const` of its canonical pointee points to the canonical pointee, whatever the pointee is", floor=8)
+def r4_16(rep):
+    """libclang drops the pointee's qualifier from the spelled type of some pointers (#2244, and every `typedef const T cT; cT *p`).
+    codegen picks `*const` / `*mut` from the pointee item alone, so the parser continues with the canonical pointee whenever the two
+    disagree on `const`.  Decided on the reach condition of that replacement: with `spelled != canonical` and `const-ness differs`
+    both true it is taken for every value of every other test (a further conjunct — "unless the pointee is a typedef" — gives
+    `fn sum3(p: *mut cint)` for `int sum3(cint *p)`; seeded change)."""
+    import itertools
+    from c08 import _formula, _atoms, _ev
+    prog = rep.prog
+    b = rep.need(prog.fn("ir::ty::Type::from_clang_ty"), "fn Type::from_clang_ty")
+
+    def is_pointee_of(e, who):
+        c = b.canon(strip(e), 8)
+        return "clang::Type::pointee_type(" in c and who in c
+
+    sites = []
+    for n in b.walk():
+        if n["k"] != "Assign" or strip(n["l"]).get("k") != "Local":
+            continue
+        lets = [x for x in b.walk() if x["k"] == "Let" and x["pat"].get("id") == strip(n["l"])["id"] and x.get("init") is not None]
+        init = lets[0]["init"] if lets else None
+        if init is None or "clang::Type::pointee_type(param:ty)" not in b.canon(strip(init), 8):
+            continue
+        r = strip(n["r"])
+        rc = b.canon(r, 8)
+        if r.get("k") == "Local" and b.local_init(r["id"]) is not None:
+            rc = b.canon(b.local_init(r["id"]), 8)
+        if "clang::Type::pointee_type(" in rc and "param:ty" not in rc.split("pointee_type(", 1)[1][:12]:
+            sites.append((n, init))
+    # which arms build something from `ty.pointee_type()` at all: each of them needs the rescue (siblings must agree)
+    def arm_of(n):
+        for pol, kind, g in b.guards(n, nested=True):
+            if kind == "arm":
+                vs = [v for v in pat_variants(g[0]["arms"][g[1]]["pat"]) if "CXType_" in v]
+                if vs:
+                    return tuple(sorted(v.split("::")[-1] for v in vs))
+        return None
+    WANT = {"CXType_Pointer": "pointer", "CXType_LValueReference": "reference"}
+    by_arm = {}
+    for asg, init in sites:
+        a = arm_of(asg)
+        for v in (a or ()):
+            if v in WANT:
+                by_arm.setdefault(WANT[v], []).append(asg)
+    for nm in sorted(set(WANT.values())):
+        got = by_arm.get(nm, [])
+        if not rep.check(len(got) == 1, nm + ":canonical-pointee-rescue", "one replacement `pointee = <canonical type>.pointee_type()` in the %s arm "
+                         "(found %d): without it `const` that libclang only reports on the canonical pointee is lost "
+                         "(`typedef const int cint; void f(cint %sp)` becomes `*mut`)" % (nm, len(got), "*" if nm == "pointer" else "&"), b.loc(b.root)):
+            continue
+        _r4_16_site(rep, b, got[0], nm)
+
+
+def _r4_16_site(rep, b, asg, nm):
+    import itertools
+    from c08 import _formula, _atoms, _ev
+    # context = whatever also guards the definition of the spelled pointee (the match arm)
+    letn = [n for n in b.walk() if n["k"] == "Let" and n["pat"].get("id") == strip(asg["l"])["id"]]
+    ctx = set()
+    for pol, kind, g in (b.guards(letn[0], nested=True) if letn else []):
+        ctx.add((pol, kind, id(g[0]) if isinstance(g, tuple) else id(g)))
+    f = ("true",)
+    odd = []
+    for pol, kind, g in b.guards(asg, nested=True):
+        if (pol, kind, id(g[0]) if isinstance(g, tuple) else id(g)) in ctx:
+            continue
+        if kind != "cond":
+            odd.append(kind)
+            continue
+        x = _formula(b, g)
+        f = ("and", f, x if pol else ("not", x))
+    if not rep.check(not odd, nm + ":rescue-guards-are-tests", "the replacement is guarded by boolean tests only (found %s)" % odd[:2], b.loc(asg)):
+        return
+    atoms = sorted(_atoms(f, set()))
+
+    def cls(a):
+        if a.count("clang::Type::is_const(") == 2 and (" != " in a or " == " in a):
+            return "B!=" if " != " in a else "B=="
+        if "clang::Type::is_const(" not in a and "canonical" in a and "param:ty" in a and (" != " in a or " == " in a):
+            return "A!=" if " != " in a else "A=="
+        return None
+    A = [a for a in atoms if (cls(a) or "").startswith("A")]
+    B = [a for a in atoms if (cls(a) or "").startswith("B")]
+    free = [a for a in atoms if cls(a) is None]
+    if not rep.check(bool(B), nm + ":rescue-tests-constness", "the replacement is decided by comparing the const-ness of the two pointees", b.loc(asg)):
+        return
+    badenv = None
+    for vals in itertools.product((False, True), repeat=len(free)):
+        env = dict(zip(free, vals))
+        env.update({a: cls(a).endswith("!=") for a in A + B})
+        if not _ev(f, env):
+            badenv = ["%s=%s" % (a[:70], v) for a, v in env.items() if cls(a) is None]
+            break
+    rep.check(badenv is None, nm + ":rescue-whenever-constness-differs",
+              "taken for every pointee whose const-ness differs from the canonical pointee's" if badenv is None else
+              "not taken although the const-ness differs when %s: that pointee keeps the spelled (unqualified) type and the %s becomes `*mut`"
+              % ("; ".join(badenv)[:200], nm), b.loc(asg))
